@@ -80,7 +80,8 @@ pub fn gen_ints(rng: &mut Rng, ty: ElemTy, n: usize, style: ValueStyle, allow_ex
     } else if lo < 0 {
         (lo / 4, hi / 4)
     } else {
-        (0, hi / 2)
+        // unsigned: higher - lower is always representable
+        (0, hi)
     };
     let clampv = |v: i128| v.max(clo).min(chi);
     let uni = |rng: &mut Rng, a: i128, b: i128| -> i128 {
@@ -145,8 +146,13 @@ pub fn gen_values(rng: &mut Rng, ty: ElemTy, n: usize, allow_extremes: bool, all
     let ints = gen_ints(rng, ty, n, style, allow_extremes);
     let mut raws: Vec<i64> = if ty.is_float() {
         // floats: integers scaled by an exactly representable factor, occasionally fractional noise
-        let scale = *rng.pick(&[1.0, 1.0, 0.25, 0.5, 8.0]);
-        let frac = rng.chance(1, 6);
+        let mut scale = *rng.pick(&[1.0, 1.0, 0.25, 0.5, 8.0]);
+        if rng.chance(1, 8) {
+            // huge or tiny magnitudes (differences stay finite): 2^+-k
+            let k = rng.below(if ty == ElemTy::F32 { 60 } else { 900 }) as i32;
+            scale = if rng.chance(1, 2) { 2f64.powi(k) } else { 2f64.powi(-k - 40) };
+        }
+        let frac = rng.chance(1, 6) && scale.abs() < 1e6 && scale.abs() > 1e-6;
         ints.iter()
             .map(|&v| {
                 let mut x = v as f64 * scale;
@@ -239,7 +245,7 @@ pub fn gen_q(rng: &mut Rng, n: usize) -> f64 {
         6 => clamp((rng.below(n - 1) as f64 + 0.5) / m),
         7 => clamp(next_down((rng.below(n - 1) as f64 + 0.5) / m)),
         8 => clamp(next_up((rng.below(n - 1) as f64 + 0.5) / m)),
-        9 => *rng.pick(&[5e-324, 1e-300, 1e-17, 1.0 - f64::EPSILON / 2.0, 0.5, 0.25, 0.75, 0.1, 0.9]),
+        9 => *rng.pick(&[5e-324, 1e-300, 1e-17, 1.0 - f64::EPSILON / 2.0, 0.5, 0.25, 0.75, 0.1, 0.9, -0.0, 2.2250738585072014e-308]),
         _ => rng.unit(),
     }
 }
@@ -347,7 +353,15 @@ fn q_ops(rng: &mut Rng, shape: &[usize], ty: ElemTy, style: ValueStyle, max_qs: 
     op.lane = lane;
     op.axis = axis;
     op.strat = fix_strat(ty, style, gen_strat(rng), rng);
-    let cnt = if name.starts_with("quantiles") { rng.below(max_qs + 1) } else { 1 };
+    let cnt = if name.starts_with("quantiles") {
+        if rng.chance(1, 25) {
+            rng.below(4 * max_qs + 1)
+        } else {
+            rng.below(max_qs + 1)
+        }
+    } else {
+        1
+    };
     op.qs = (0..cnt).map(|_| gen_q(rng, n)).collect();
     if cnt >= 2 && rng.chance(1, 3) {
         // repeat an entry / share a lower-higher index pair
@@ -638,6 +652,18 @@ pub fn gen_array_scenario(prop: Prop, rng: &mut Rng, tier: Tier) -> Scenario {
             let (parent_shape, view) = gen_view(rng, &lens, flag_);
             let total: usize = parent_shape.iter().product();
             let (mut data, _) = gen_values(rng, ty, total, false, false);
+            add_identity_noise(rng, ty, &mut data);
+            let mut has_inf = false;
+            if ty.is_float() && rng.chance(1, 10) {
+                // one kind of infinity; interpolating strategies are then outside the domain
+                has_inf = true;
+                let inf = if rng.chance(1, 2) { f64::INFINITY } else { f64::NEG_INFINITY };
+                for r in data.iter_mut() {
+                    if rng.chance(1, 5) {
+                        *r = ty.raw_of_f64(inf);
+                    }
+                }
+            }
             apply_missing(rng, ty, &mut data);
             let mut scn = Scenario { prop: "C14".into(), elem: ty, static_dim: rng.chance(1, 2), parent_shape, data, view, ops: vec![] };
             let shape = scn.view_shape();
@@ -651,6 +677,13 @@ pub fn gen_array_scenario(prop: Prop, rng: &mut Rng, tier: Tier) -> Scenario {
                     let mut op = new_op(rng, name);
                     op.axis = rng.below(shape.len());
                     scn.ops.push(op);
+                }
+            }
+            if has_inf {
+                for op in scn.ops.iter_mut() {
+                    if !op.strat.selecting() {
+                        op.strat = *rng.pick(&[Strat::Lower, Strat::Higher, Strat::Nearest]);
+                    }
                 }
             }
             scn
@@ -729,7 +762,7 @@ pub fn gen_det_bulk_op(rng: &mut Rng) -> Op {
             .collect();
         // aux: shape, data, weights, [elem kind: 0 f64, 1 i64, 2 f32], [layout: 0 C, 1 F]
         op.aux = vec![shape, data, weights, vec![rng.below(3) as i64], vec![rng.below(2) as i64]];
-        op.idx = vec![rng.below(2) as u64]; // ddof numerator (0 or 1)
+        op.idx = vec![rng.below(5) as u64, rng.below(2) as u64]; // ddof = idx[0]/4 in [0,1]; idx[1]: statically-dimensioned arrays
         op
     }
 }
@@ -737,40 +770,92 @@ pub fn gen_det_bulk_op(rng: &mut Rng) -> Op {
 pub fn gen_hist_scenario(rng: &mut Rng, tier: Tier) -> HistScenario {
     let d = 1 + rng.weighted(&[4, 3, 2]);
     let elem = if rng.chance(1, 2) { "i32" } else { "N64" };
+    // value family of this run: small integers, wide (type-wide) values, or many edges
+    let family = rng.weighted(&[6, 2, 2]);
+    let (vlo, vhi): (i64, i64) = match family {
+        1 => {
+            if elem == "i32" {
+                (i32::MIN as i64, i32::MAX as i64)
+            } else {
+                (-(1 << 39), 1 << 39)
+            }
+        }
+        2 => (-40, 40),
+        _ => (-6, 6),
+    };
     let mut edges = vec![];
     for _ in 0..d {
-        let ne = if rng.chance(1, 12) { rng.below(2) } else { 2 + rng.below(5) };
-        edges.push((0..ne).map(|_| rng.range(-6, 6)).collect::<Vec<i64>>());
+        let ne = if rng.chance(1, 12) {
+            rng.below(2)
+        } else if family == 2 {
+            2 + rng.below(if d == 1 { 60 } else { 12 })
+        } else {
+            2 + rng.below(5)
+        };
+        let mut e: Vec<i64> = (0..ne).map(|_| rng.range(vlo, vhi)).collect();
+        if family == 1 && ne > 0 && rng.chance(1, 2) {
+            // type limits as edges
+            e[0] = vlo;
+            if ne > 1 {
+                e[1] = vhi;
+            }
+        }
+        if elem == "N64" && ne > 0 && rng.chance(1, 10) {
+            let k = rng.below(ne);
+            e[k] = if rng.chance(1, 2) { crate::hist::POS_INF } else { crate::hist::NEG_INF };
+        }
+        edges.push(e);
     }
     let np = 1 + rng.below(4);
     let max_hist = if tier == Tier::Thorough { 400 } else { 40 };
-    let total = if rng.chance(1, 2) { rng.below(9) } else { rng.below(max_hist + 1) };
+    let total = if rng.chance(1, 60) {
+        // a long history: counters pass every small power of two
+        300 + rng.below(900)
+    } else if rng.chance(1, 2) {
+        rng.below(9)
+    } else {
+        rng.below(max_hist + 1)
+    };
     let outside_pct = *rng.pick(&[0u32, 10, 30, 60]);
+    let repeat_pct = *rng.pick(&[0u32, 0, 50, 95]);
     let mut producers: Vec<Vec<Vec<i64>>> = vec![vec![]; np];
+    let mut last: Option<Vec<i64>> = None;
     for _ in 0..total {
         let p = rng.below(np);
+        if let Some(l) = &last {
+            if rng.chance(repeat_pct, 100) {
+                producers[p].push(l.clone());
+                continue;
+            }
+        }
         let obs: Vec<i64> = (0..d)
             .map(|j| {
                 let mut e = edges[j].clone();
                 e.sort_unstable();
                 e.dedup();
                 if e.is_empty() {
-                    return rng.range(-7, 7);
+                    return rng.range(vlo, vhi);
                 }
                 let (lo, hi) = (e[0], *e.last().unwrap());
+                let clampv = |v: i64| if elem == "i32" { v.max(i32::MIN as i64).min(i32::MAX as i64) } else { v.max(crate::hist::NEG_INF).min(crate::hist::POS_INF) };
                 if rng.chance(outside_pct, 100 * d as u32) {
-                    match rng.below(3) {
-                        0 => lo - 1 - rng.below(2) as i64,
+                    match rng.below(4) {
+                        0 => clampv(lo.saturating_sub(1 + rng.below(2) as i64)),
                         1 => hi,
-                        _ => hi + 1 + rng.below(2) as i64,
+                        2 if elem == "N64" => *rng.pick(&[crate::hist::POS_INF, crate::hist::NEG_INF]),
+                        _ => clampv(hi.saturating_add(1 + rng.below(2) as i64)),
                     }
                 } else if rng.chance(1, 3) {
                     *rng.pick(&e)
+                } else if rng.chance(1, 4) && e.len() >= 2 {
+                    // just below an edge
+                    clampv(e[1 + rng.below(e.len() - 1)].saturating_sub(1))
                 } else {
-                    rng.range(lo, hi)
+                    rng.range(lo.max(vlo.min(lo)), hi)
                 }
             })
             .collect();
+        last = Some(obs.clone());
         producers[p].push(obs);
     }
     // delivery scheduler
@@ -800,6 +885,6 @@ pub fn gen_hist_scenario(rng: &mut Rng, tier: Tier) -> HistScenario {
             cur = rng.below(np);
         }
     }
-    let forms = (0..delivery.len()).map(|_| rng.below(3) as u8).collect();
+    let forms = (0..delivery.len()).map(|_| rng.below(4) as u8).collect();
     HistScenario { elem: elem.to_string(), edges, producers, delivery, forms, matrix_order: rng.below(2) as u8 }
 }
